@@ -119,6 +119,9 @@ func (g *genCfg) pick(rng *rand.Rand, o, d *Obj) (Call, string) {
 	if g.fams["marshal"] {
 		menu = append(menu, "Marshal")
 	}
+	if g.fams["loglevel"] {
+		menu = append(menu, "SetLogLevel", "UnsetLogLevel")
+	}
 	if g.fams["closures"] {
 		menu = append(menu, "SetValidityPolicy", "SetClosure", "SetClosure")
 	}
@@ -200,6 +203,32 @@ func (g *genCfg) pick(rng *rand.Rand, o, d *Obj) (Call, string) {
 			return Call{"op": "SetOpt", "f": "ronly", "m": "toggle"}, "dst"
 		case "DstNnest":
 			return Call{"op": "SetOpt", "f": "nnest", "m": "toggle"}, "dst"
+		case "SetLogLevel", "UnsetLogLevel":
+			n := 1 + rng.Intn(3)
+			args := []any{}
+			for i := 0; i < n; i++ {
+				r := rng.Intn(12)
+				switch {
+				case r == 0:
+					args = append(args, map[string]any{"bits": []any{}, "none": true, "all": false, "form": []string{"name", "int", "const"}[rng.Intn(3)]})
+				case r == 1 && op == "SetLogLevel":
+					args = append(args, map[string]any{"bits": []any{}, "none": false, "all": true, "form": []string{"name", "int", "const"}[rng.Intn(3)]})
+				case r < 8:
+					args = append(args, map[string]any{"bits": []any{1 + rng.Intn(16)}, "none": false, "all": false, "form": []string{"name", "const"}[rng.Intn(2)]})
+				default:
+					bits := []any{}
+					for b := 1; b <= 16; b++ {
+						if rng.Intn(5) == 0 {
+							bits = append(bits, b)
+						}
+					}
+					if len(bits) == 0 || len(bits) == 16 {
+						bits = []any{2, 5}
+					}
+					args = append(args, map[string]any{"bits": bits, "none": false, "all": false, "form": "int"})
+				}
+			}
+			return Call{"op": op, "args": args}, "st"
 		case "SetValidityPolicy":
 			return Call{"op": "SetValidityPolicy", "mode": []string{"none", "ok", "bad"}[rng.Intn(3)]}, "st"
 		case "SetClosure":
@@ -215,7 +244,7 @@ func (g *genCfg) pick(rng *rand.Rand, o, d *Obj) (Call, string) {
 			}
 			return Call{"op": "Marshal", "kind": allKinds[rng.Intn(5)], "xs": xs}, "st"
 		case "SetID":
-			return Call{"op": "SetID", "v": []string{"", "x", "some id", "Y_1"}[rng.Intn(4)]}, "st"
+			return Call{"op": "SetID", "v": []string{"", "x", "some id", "Y_1", "_random", "_RANDOM", "_addr"}[rng.Intn(7)]}, "st"
 		case "SetCategory":
 			return Call{"op": "SetCategory", "v": []string{"", "k", "cat two"}[rng.Intn(3)]}, "st"
 		case "SetDelimiter":
